@@ -157,12 +157,23 @@ pub fn gen_case(c: &mut Choices) -> Case {
         7 => {
             labels.push("shape=spread-args-0".into());
             spread_args = true;
-            "...args2".to_string()
+            if c.bool() {
+                "...args2".to_string()
+            } else {
+                // the spread need not be the last argument
+                labels.push("shape=spread-args-not-last".into());
+                "...args2, uo".to_string()
+            }
         }
         8 => {
             labels.push("shape=spread-args-1".into());
             spread_args = true;
-            format!("{setup}, ...rest")
+            if c.bool() {
+                format!("{setup}, ...rest")
+            } else {
+                labels.push("shape=spread-args-not-last".into());
+                format!("{setup}, ...rest, uo")
+            }
         }
         9 => {
             labels.push("shape=options-api-object".into());
@@ -294,7 +305,7 @@ impl Property for C20 {
         "C20"
     }
     fn rule(&self) -> String {
-        "binding provenance of the callee {named import from 'vue'; aliased import; another vue export imported as defineComponent; namespace member; local function; shadowing parameter; shadowing inner const; named import from another module; global} x call shape {setup only; object literal without / with props, emits, name written as key: v, \"key\": v or shorthand; literal with a spread first / last / mixed; identifier or call as options; spread argument list at index 0 / 1; options-API object} x declaration kind {const / let / var declarator, export const, export default, assignment, argument position} x annotated or plain setup x resolveType on/off; the env supplies user option objects that do / do not contain props, emits, name. Oracle: every call is recorded (mock vue defineComponent, 'other' module stub, local / global recorders); the same module transformed with resolveType off gives the written arguments; expected: non-augmentable calls (any provenance but the vue named import, resolveType off, spread argument list) receive exactly the written arguments; augmentable calls receive the written options plus props / emits (from the annotations) / name (variable declarators only) for exactly the keys the user did not supply, the user's values (literal or through a spread / identifier / call at run time) always winning. non-trivial = user-supplied key present on an augmentable call, or non-vue provenance with an annotated setup and resolveType on; distinct by hash(source, options, env)".into()
+        "binding provenance of the callee {named import from 'vue'; aliased import; another vue export imported as defineComponent; namespace member; local function; shadowing parameter; shadowing inner const; named import from another module; global} x call shape {setup only; object literal without / with props, emits, name written as key: v, \"key\": v or shorthand; literal with a spread first / last / mixed; identifier or call as options; spread argument list at index 0 / 1, last or followed by another argument; options-API object} x declaration kind {const / let / var declarator, export const, export default, assignment, argument position} x annotated or plain setup x resolveType on/off; the env supplies user option objects that do / do not contain props, emits, name. Oracle: every call is recorded (mock vue defineComponent, 'other' module stub, local / global recorders); the same module transformed with resolveType off gives the written arguments; expected: non-augmentable calls (any provenance but the vue named import, resolveType off, spread argument list) receive exactly the written arguments; augmentable calls receive the written options plus props / emits (from the annotations) / name (variable declarators only) for exactly the keys the user did not supply, the user's values (literal or through a spread / identifier / call at run time) always winning. non-trivial = user-supplied key present on an augmentable call, or non-vue provenance with an annotated setup and resolveType on; distinct by hash(source, options, env)".into()
     }
     fn assumptions(&self) -> Vec<String> {
         vec![
@@ -439,7 +450,7 @@ impl Property for C20 {
             "provenance=local-function", "provenance=shadowing-parameter", "provenance=shadowing-inner-const",
             "provenance=other-module", "provenance=global", "shape=literal-with-keys", "shape=literal-spread-first",
             "shape=literal-spread-last", "shape=identifier-options", "shape=call-options", "shape=spread-args-0",
-            "shape=spread-args-1", "shape=options-api-object", "shape=literal-two-spreads", "quoted-option-key", "shorthand-option-key",
+            "shape=spread-args-1", "shape=spread-args-not-last", "shape=options-api-object", "shape=literal-two-spreads", "quoted-option-key", "shorthand-option-key",
             "resolveType=false", "user-key-present", "decl=export-default", "decl=assignment",
         ]
     }
